@@ -13,7 +13,8 @@ impl<const N: usize> FixedStr<N> {
 		Self { buf: [0; N], len: 0 }
 	}
 	fn push(&mut self, s: &[u8]) {
-		kani::assume(self.len + s.len() <= N);
+		// an assertion, not an assumption: text longer than the bound must fail the harness, not vanish
+		assert!(self.len + s.len() <= N, "c08_pcf: canonical form longer than the specification's (buffer bound)");
 		let mut i = 0;
 		while i < s.len() {
 			self.buf[self.len + i] = s[i];
@@ -33,7 +34,7 @@ impl<const N: usize> Write for FixedStr<N> {
 /// [PRIMITIVES] as "name"; [FULLNAMES]; [STRIP] keep only type,name,fields,symbols,items,values,size;
 /// [ORDER] name,type,fields,symbols,items,values,size; no whitespace; a named type is written in full at its
 /// first occurrence (depth-first, document order) and as its quoted fullname afterwards.
-fn ref_pcf<const N: usize>(s: &SchemaMut, key: usize, seen: &mut [bool; 8], out: &mut FixedStr<N>) {
+fn ref_pcf<const N: usize>(s: &SchemaMut, key: usize, seen: &mut [bool; 12], out: &mut FixedStr<N>) {
 	let node = &s.nodes()[key];
 	match &node.type_ {
 		RegularType::Null => out.push(b"\"null\""),
@@ -159,7 +160,7 @@ fn compare_pcf<const N: usize>(schema: &SchemaMut) {
 	let r = st.write_canonical_form(schema, SchemaKey::from_idx(0));
 	assert!(r.is_ok(), "c08_pcf: canonical form of a valid graph failed");
 	let mut want = FixedStr::<N>::new();
-	let mut seen = [false; 8];
+	let mut seen = [false; 12];
 	ref_pcf(schema, 0, &mut seen, &mut want);
 	let got = &st.w.0;
 	assert!(got.len == want.len, "c08_pcf: canonical form length differs from the specification's");
@@ -172,9 +173,9 @@ fn compare_pcf<const N: usize>(schema: &SchemaMut) {
 }
 
 // @harness props=C08 tier=quick timeout=1800
-// @bound Parsing Canonical Form text vs the reference writer on graph G1: record ns.r {a: long(timestamp-millis: logical type must be dropped), b: [null, ns.r] (self reference by name), c: enum e{x,y}, d: fixed f(4), e: array<map<e>> (second occurrence of e by name)}; output <= 260 bytes
+// @bound Parsing Canonical Form text vs the reference writer on graph G1: record ns.r {a: long(timestamp-millis: logical type must be dropped), b: [null, ns.r] (self reference by name), c: enum e{x,y}, d: fixed f(4), e: array<map<e>> (second occurrence of e by name)}; expected text 302 bytes, buffer 362
 #[kani::proof]
-#[kani::unwind(262)]
+#[kani::unwind(305)]
 #[kani::stub(alloc::fmt::format, crate::verif::stub_format)]
 fn c08_pcf_graph1() {
 	let mut fields = MD::new([
@@ -197,13 +198,14 @@ fn c08_pcf_graph1() {
 		/*7*/ node(RegularType::Map(Map { values: key(4) })),
 	]);
 	let schema = schema_of(&mut storage);
-	compare_pcf::<260>(&schema);
+	compare_pcf::<362>(&schema);
+	kani::cover!(true, "end of harness reached");
 }
 
 // @harness props=C08 tier=quick timeout=1800
-// @bound PCF text on graph G2: union root [string, bytes, double, float, int, boolean, record r2{f: fixed a.g(9), g: a.g again (by name), h: r2 itself}], output <= 200 bytes
+// @bound PCF text on graph G2: union root [string, bytes, double, float, int, boolean, record r2{f: fixed a.g(9), g: a.g again (by name), h: r2 itself}], expected text 202 bytes, buffer 262
 #[kani::proof]
-#[kani::unwind(202)]
+#[kani::unwind(205)]
 #[kani::stub(alloc::fmt::format, crate::verif::stub_format)]
 fn c08_pcf_graph2() {
 	let mut uvars = MD::new([key(1), key(2), key(3), key(4), key(5), key(6), key(7)]);
@@ -224,7 +226,8 @@ fn c08_pcf_graph2() {
 		/*8*/ node(RegularType::Fixed(Fixed { size: 9, name: name("a.g", Some(1)) })),
 	]);
 	let schema = schema_of(&mut storage);
-	compare_pcf::<200>(&schema);
+	compare_pcf::<262>(&schema);
+	kani::cover!(true, "end of harness reached");
 }
 
 // =============================================================================================
@@ -270,6 +273,7 @@ fn c19_fingerprint_total() {
 		node(RegularType::Long),
 	]);
 	assert!(total_case(&mut g5), "c19: DAG sharing an unnamed node rejected");
+	kani::cover!(true, "end of harness reached");
 }
 
 // @harness props=C19 tier=quick timeout=1200 finding=F6
@@ -285,4 +289,5 @@ fn c19_fingerprint_unnamed_cycle() {
 	assert!(!total_case(&mut g1), "c19: a cycle through unnamed nodes has no canonical form: must be an error");
 	let mut g2 = MD::new([node(RegularType::Array(Array { items: key(1) })), node(RegularType::Map(Map { values: key(0) }))]);
 	assert!(!total_case(&mut g2), "c19: a cycle through unnamed nodes has no canonical form: must be an error");
+	kani::cover!(true, "end of harness reached");
 }
